@@ -11,6 +11,9 @@
 #ifndef NX
 #define NX 0
 #endif
+#ifndef REALOMP
+#define REALOMP 0        // 1: linked with the real libgomp (a sample of real, truly parallel schedules; no schedule control, no DAG)
+#endif
 
 #include "fmmharness.hpp"
 #include "../runtimes/sched.hpp"
@@ -46,6 +49,9 @@ namespace {
 using rm::Coord;
 
 int currentTask(){ return msched::global().currentTask; }
+#if REALOMP
+extern "C" void omp_set_num_threads(int);
+#endif
 
 struct TreeValues {
     std::map<std::pair<int, Coord>, std::pair<gf::Val, gf::Val>> cells;
@@ -101,7 +107,12 @@ std::string propSched(const FmmCase& c, const std::string& prop){
     ctxB.dim = Dim; ctxB.height = H; ctxB.base = H - 1; ctxB.logging = true;
     ctxB.leafOf[0] = &mt.leafOf; ctxB.rows[0] = &in.rows;
     fh::registerCells<Dim>(*treeB, ctxB);
+#if REALOMP
+    ctxB.threadSafe = true;          // kernel callbacks run concurrently: the probe kernel serialises its bookkeeping, not the executor's work
+    omp_set_num_threads(std::max(1, c.threads));
+#else
     ctxB.currentTaskFn = &currentTask;
+#endif
     msched::Scheduler& S = msched::global();
     S.reset(c.threads, c.sched);
     long totalTasks = 0, totalDeferred = 0, conflictsChecked = 0; std::set<int> workers;
@@ -111,6 +122,9 @@ std::string propSched(const FmmCase& c, const std::string& prop){
         Kernel::defaultCtx() = &ctxB;
         // the runtime may have another number of workers while the executor object is built (omp_set_num_threads, Specx team size)
         if(RT != 3 && c.threadsCtor > 0) S.reset(c.threadsCtor, c.sched);
+#if REALOMP
+        if(c.threadsCtor > 0) omp_set_num_threads(c.threadsCtor);
+#endif
         if(c.variant == 1){
             // documented construction from the configuration only: the executor creates the kernel(s) itself
             if(c.lstop == -100) algo.reset(new TaskAlgo(config)); else algo.reset(new TaskAlgo(config, long(c.lstop)));
@@ -121,6 +135,9 @@ std::string propSched(const FmmCase& c, const std::string& prop){
             std::vector<uint32_t> s2 = sched; if(!s2.empty()) s2.push_back(uint32_t(ic) * 2654435761u);
             S.reset(c.threads, s2);
             ctxB.accesses.clear(); ctxB.kernelUse.clear();
+#if REALOMP
+            omp_set_num_threads(std::max(1, c.threads));
+#endif
             algo->execute(*treeB, calls[ic]);
             // every submitted task has run when execute() returns
             for(const auto& t : S.tasks) if(!t.done){ err = "execute() returned while a submitted task had not run"; break; }
@@ -194,7 +211,8 @@ std::string propSched(const FmmCase& c, const std::string& prop){
     st.cls("H=" + std::to_string(H));
     st.cls(c.variant == 1 ? "ctor:configuration-only" : "ctor:kernel-given");
     if(calls.size() > 1) st.cls("staged-history");
-    const bool nontrivial = totalTasks >= 20 && totalDeferred >= 1 && workers.size() >= 2 && (H - 2 - lstop + 1) >= 2;
+    bool nontrivial = totalTasks >= 20 && totalDeferred >= 1 && workers.size() >= 2 && (H - 2 - lstop + 1) >= 2;
+    if(REALOMP) nontrivial = c.threads >= 2 && (H - 2 - lstop + 1) >= 2 && mt.leaves.size() >= 8;
     if(nontrivial) st.noteNontrivial(hc::hashCase(c), c);
     return "";
 }
